@@ -1,4 +1,5 @@
 """C02 - verification verdicts equal the documented meaning of each constraint."""
+import datetime
 from typing import List, Optional
 
 from vp.ob import Ob
@@ -46,6 +47,34 @@ def k1_min_max(vals: List[Optional[int]], bound: Optional[int], prec: int, is_ma
     p = PRECS[prec] or 'fuzzy'
     if is_max:
         want = all((x < bound) if p == 'open' else (x <= bound) for x in nn)      # epsilon 0: fuzzy == closed
+    else:
+        want = all((x > bound) if p == 'open' else (x >= bound) for x in nn)
+    return got == want
+
+
+EPOCH = datetime.datetime(2000, 1, 1)
+
+
+def _day(d):
+    return None if d is None else EPOCH + datetime.timedelta(days=d)
+
+
+def k1_date_min_max(days: List[Optional[int]], bound: int, prec: int, is_max: bool) -> bool:
+    """
+    pre: len(days) <= P['rows'] and 0 <= prec < 4 and 0 <= bound <= 3 and all(d is None or 0 <= d <= 3 for d in days)
+    post: __return__
+    """
+    # the documented meaning of a precision does not depend on the kind of value: an open date bound is strict,
+    # a closed one is not; fuzziness has no meaning for dates, so fuzzy (the default) is read as closed
+    with symdf.patched(pc):
+        v = _verifier({'c': symdf.date_series([_day(d) for d in days])}, epsilon=0.01)
+        C = MaxConstraint if is_max else MinConstraint
+        verify = v.verify_max_constraint if is_max else v.verify_min_constraint
+        got = bool(verify('c', C(_day(bound), precision=PRECS[prec])))    # get_date always yields datetimes
+    nn = _nn(days)
+    p = PRECS[prec] or 'fuzzy'
+    if is_max:
+        want = all((x < bound) if p == 'open' else (x <= bound) for x in nn)
     else:
         want = all((x > bound) if p == 'open' else (x >= bound) for x in nn)
     return got == want
@@ -205,16 +234,14 @@ def k1_rex(vals: List[Optional[str]], k: int, null_value: bool, missing: bool, a
         else:
             cols = {'c': symdf.str_series(vals)}
         v = _verifier(cols)
-        c = RexConstraint(list(REX_MENU[k]))
-        if null_value:
-            c.value = None
+        c = RexConstraint(None if null_value else list(REX_MENU[k]))    # as initialize_from_dict builds it
         got = bool(v.verify_rex_constraint('c', c))
     if missing:
         return got is False
-    if as_int_col:
-        return got is False or null_value      # (a null-valued constraint is always satisfied)
     if null_value:
-        return got is True
+        return got is True          # a null-valued constraint is always satisfied, whatever the column
+    if as_int_col:
+        return got is False
     want = all(_ref_rex(k, x) for x in _nn(vals))
     return got == want
 
@@ -385,6 +412,11 @@ def _obs():
                       'for open precision); null bound => satisfied; absent column => failed',
                       b + '; bound any int or null; precision 4-way; min or max; epsilon 0', param={'rows': rows},
                       timeout=to, tier=tier, stubs=['symdf (pandas double)']))
+        obs.append(Ob('K1', 'k1_date_min_max', 'min/max on a date column with a datetime bound: open precision is '
+                      'strict, closed is not, fuzzy/unspecified is read as closed (dates are never fuzzy)',
+                      'date column of <=%d rows, day offsets 0..3 or null; bound offset 0..3 (a datetime, as get_date yields); 4 '
+                      'precisions; min and max; epsilon 0.01' % min(rows, 2), param={'rows': min(rows, 2)},
+                      timeout=to, tier=tier, stubs=['symdf']))
         obs.append(Ob('K1', 'k1_precision_dispatch', 'with a non-zero epsilon: closed and open precision never consult '
                       'the fuzzy comparison and are decided by >= / > (<= / <) on the column extreme; fuzzy (or '
                       'unspecified) precision is decided by the fuzzy comparison of (extreme, bound, epsilon)',
